@@ -37,6 +37,9 @@ CASES = [
     ('Accept is the digest of another key', lambda ws: reply(ws, accept=lambda k: harness.accept_for(b'x' + k[1:])), False),
     ('Accept truncated', lambda ws: reply(ws, accept=lambda k: harness.accept_for(k)[:-2]), False),
     ('Accept with a trailing extra character', lambda ws: reply(ws, accept=lambda k: harness.accept_for(k) + b'A'), False),
+    ('Accept with its base64 padding dropped', lambda ws: reply(ws, accept=lambda k: harness.accept_for(k).rstrip(b'=')), False),
+    ('Accept with one more "=" appended', lambda ws: reply(ws, accept=lambda k: harness.accept_for(k) + b'='), False),
+    ('Accept with a leading extra character', lambda ws: reply(ws, accept=lambda k: b'A' + harness.accept_for(k)), False),
     ('Accept differs from the digest only in the case of one letter', lambda ws: reply(ws, accept=lambda k: swapcase_one(harness.accept_for(k))), False),
 ]
 
